@@ -294,6 +294,11 @@ func (r *rw) expr(e ast.Expr) ast.Expr {
 	case *ast.CallExpr:
 		isClose := r.isBuiltin(n.Fun, "close") && len(n.Args) == 1
 		isMake := r.isBuiltin(n.Fun, "make") && len(n.Args) >= 1
+		if r.isBuiltin(n.Fun, "recover") && len(n.Args) == 0 {
+			// recover() -> vsched.NoteRecover(recover()): still called directly by the deferred function, and a
+			// recovered panic is recorded whatever the code then does with it (log text, silence)
+			return r.sched("NoteRecover", n)
+		}
 		var chanElem ast.Expr
 		if isMake {
 			if ct, ok := n.Args[0].(*ast.ChanType); ok && ct.Dir == ast.SEND|ast.RECV {
